@@ -286,6 +286,25 @@ fn exec(cx: &mut Ctx, c: &Case, fb: u8, roll: &mut u64) {
     }
 }
 
+/// One generic vector-kernel case for the per-configuration conformance transcript of C20.
+pub fn smoke_kernel(cx: &mut Ctx, seed: u64, class: &str) {
+    let c = Case { kind: 4, seed };
+    cx.log.announce(&format!("algo=kernel {}", c.desc(0)));
+    cx.log.nontrivial();
+    cx.log.class(class);
+    let (got, exp) = compute(&c, 0);
+    cx.log.eval(1);
+    let cfgname = format!("{}-{}", api::build_kind(), api::profile());
+    match got {
+        Ok(g) => {
+            if g != exp {
+                cx.log.violation(&format!("C20|{}|vector-kernel|differs-from-reference", cfgname), "the generic vector kernel gives a result that differs from the scalar lane model in this configuration");
+            }
+        }
+        Err(p) => cx.log.panic_violation(&format!("C20|{}|vector-kernel", cfgname), &p),
+    }
+}
+
 pub fn run(cx: &mut Ctx) {
     cx.selftest(crate::refmodel::T_CHACHA | crate::refmodel::T_BLAKE | crate::refmodel::T_JH);
     // the transcript depends on (seed, shard) only -- never on the configuration
